@@ -86,9 +86,11 @@ def run(tier, seed, mutant=None, only_validate=False):
                 raise core.MachineryError("sensitivity run: rate_limit without retain not refuted by CbSafe")
         cfgs = [{"kind": "rate_limit", "interval": i, "cons": [c], "max_elems": ne}
                 for i in ((2,) if tier == "quick" else (1, 2, 3)) for c in ("future", "coro", "sync")]
+        # intervals given as strings (convert_interval): seconds, hours, whole days
+        cfgs += [{"kind": "rate_limit", "interval": i, "cons": ["future"], "max_elems": 3} for i in ("2s", "1d", "36h")]
         amod.node_engine(res, work, node="rate_limit", trace_module="AsyncRateLimitTrace", cfgs=cfgs,
-                         consts_of=lambda c: dict(NE=ne, Interval=int(c["interval"]), SyncCons=c["cons"][0] == "sync",
-                                                  MaxTime=1000, Retain=True),
+                         consts_of=lambda c: dict(NE=ne, Interval=amod.seconds(c["interval"]), SyncCons=c["cons"][0] == "sync",
+                                                  MaxTime=100000000, Retain=True),
                          adapt=adapt, attribute=attribute, seed=seed, depth=8 if tier == "quick" else 10,
                          limit=300 if tier == "quick" else 3000, nrandom=250 if tier == "quick" else 2500,
                          default_prop="C13", mutant=mutant,
